@@ -90,7 +90,7 @@ class Gen:
             k.append('dwarf_link')
         d = self.dw
         if d and d.get('unit_meta'):
-            k += ['cu_iter', 'cu_at', 'cu_at_stale', 'cu_containing', 'cu_containing_seq', 'die_top', 'die_iter', 'die_at', 'die_at_info', 'die_children',
+            k += ['cu_iter', 'cu_at', 'cu_at_stale', 'cu_containing', 'cu_containing_seq', 'die_top', 'die_iter', 'die_iter_held', 'die_at', 'die_at_info', 'die_children',
                   'die_siblings', 'die_parent', 'die_parent_chain', 'die_path', 'abbrev', 'lineprog_seq', 'dwarf_again']
             if any(m['refs'] for m in d['unit_meta']):
                 k.append('die_ref')
@@ -173,6 +173,9 @@ class Gen:
                   ['get_symbol_by_name', _names(r, [x for x in names if x])]]
             if n:
                 qs += [['get_symbol', base + r.randrange(n)], ['get_symbol', base + n - 1]]
+            if n >= 2:
+                qs.append(['iter_split', 'iter_symbols', r.randrange(1, min(n, 6)), r.choice(
+                    [['get_symbol_by_name', _names(r, [x for x in names if x])], ['num_symbols'], ['iter_symbols', _take(r, n)]])])
             return qs
 
         def dyn_queries(tags):
@@ -203,6 +206,9 @@ class Gen:
             cand = [['num_relocations'], ['iter_relocations', _take(r, n)]]
             if n:
                 cand += [['get_relocation', r.randrange(n)], ['get_relocation', n - 1], ['get_relocation', 0]]
+            if n >= 2:
+                cand.append(['iter_split', 'iter_relocations', r.randrange(1, min(n, 8)), r.choice(
+                    [['num_relocations'], ['get_relocation', r.randrange(n)], ['iter_relocations', _take(r, n)]])])
             target = ['sec', i]
         elif ttype == 'ver':
             m = inst or r.choice(self.by_cls('GNUVerDefSection', 'GNUVerNeedSection'))
@@ -225,6 +231,9 @@ class Gen:
                     ['get_DIE_from_refaddr', self._die_off(m)]]
             if m['abbrev_codes']:
                 cand.append(['abbrev', r.choice(m['abbrev_codes'])])
+            if len(m['flat']) >= 2:
+                cand.append(['iter_split', 'iter_DIEs', r.randrange(1, min(len(m['flat']), 8)), r.choice(
+                    [['get_top_DIE'], ['get_DIE_from_refaddr', self._die_off(m)], ['iter_DIEs', _take(r, len(m['flat']))]])])
             target = ['cu', m['off']]
         elif ttype == 'die':
             m = self._unit()
@@ -258,6 +267,8 @@ class Gen:
             items = d['pub'][which]
             names = [x[0] for x in items]
             cand = [['get', _names(r, names)], ['get', _names(r, names)], ['items', _take(r, len(items))], ['get_cu_headers'], ['len'], ['keys']]
+            if len(items) >= 2:
+                cand.append(['iter_split', 'items', r.randrange(1, min(len(items), 6)), r.choice([['get', _names(r, names)], ['get_cu_headers'], ['len']])])
             target = ['lut', which]
         elif ttype == 'sec':
             # any Section object kept by the caller: its contents asked for more than once (decompression state, ...)
@@ -339,6 +350,14 @@ class Gen:
                 first.append(['lineprog_seq', offs])
             first.append(['x2', ['lineprog_after', offs[0]]])
             first.append(['die_iter', offs[0], None])
+            for o2 in offs[:3]:
+                first.append(['die_iter_held', o2, None, 40])
+            small = [m['off'] for m in d['unit_meta'] if len(m['flat'] or []) <= 600][:4]
+            for oa in small:
+                for ob in small:
+                    if oa != ob:
+                        # a walk of one unit, a walk of another, then navigation from the entries kept from the first
+                        first.append(['die_iter_held', oa, None, 8, [['die_iter', ob, None]]])
             first.append(['cu_iter', None])
             if 'loc_iter' in self.kinds:
                 first.append(['loc_iter', None])
@@ -615,6 +634,9 @@ class Gen:
         if kind == 'die_iter':
             m = r.choice(d['unit_meta'])
             return [kind, m['off'], _take(r, len(m['flat'] or []) or 5)]
+        if kind == 'die_iter_held':
+            m = r.choice(d['unit_meta'])
+            return [kind, m['off'], r.choice([None, None, _take(r, len(m['flat'] or []) or 5)]), r.choice([3, 8, 40])]
         if kind in ('die_at', 'die_parent', 'die_parent_chain', 'die_path', 'die_siblings'):
             m = self._unit()
             if not m:
